@@ -38,7 +38,8 @@ contains '.bundle' and '.bundlx'.
 Further fixed scenarios (oracle only): the bundle lock changing hands between three writers (A unlocks, B was
 waiting, C arrives: the two stores must be serialised whatever FileLock.unlock does first); a tile of 2^24 + 5 bytes
 (v2 must refuse it or store it completely, v1 stores it); a reader meeting the writer of a brand-new v1 bundle;
-EACCES on the k-th open-for-reading during a defragmentation.
+EACCES on the k-th open-for-reading during a defragmentation; a defragmentation interrupted right before a swap (filled temp
+bundle left behind), followed by a run whose first bundle is skipped by the thresholds.
 
 Oracle (independent of the model, on the real bytes after EVERY operation): every index entry is empty or points
 at a complete record inside the file whose recorded size matches; live records are pairwise disjoint and lie
@@ -298,7 +299,7 @@ class Real(object):
         except Exception as ex:   # noqa
             return ('raised', type(ex).__name__)
 
-    def defrag(self, min_percent, min_bytes):
+    def defrag(self, min_percent, min_bytes, interrupt_at_swap=None):
         from mapproxy.script.defrag import defrag_compact_cache
         decisions = {}
 
@@ -323,11 +324,22 @@ class Real(object):
             def __getattr__(self, name):
                 return getattr(os, name)
 
+            def remove(self, path, *a, **kw):
+                # interrupt_at_swap=n: the run is interrupted (an I/O error stands in for a kill) when it is about to
+                # remove the n-th bundle it has copied, i.e. after the temp bundle was filled and before the swap
+                if interrupt_at_swap is not None and path.endswith('.bundle') and inside(path) \
+                        and not os.path.basename(path).startswith('tmp_defrag'):
+                    swaps.append(path)
+                    if len(swaps) == interrupt_at_swap:
+                        raise OSError(errno.EIO, 'injected: interrupted before the swap', path)
+                return os.remove(path, *a, **kw)
+
             def rename(self, src, dst, *a, **kw):
                 if inside(src) != inside(dst):
                     raise OSError(errno.EXDEV, 'Invalid cross-device link', src)
                 return os.rename(src, dst, *a, **kw)
             replace = rename
+        swaps = []
         saved_os, saved_tmp = dm.os, tempfile.tempdir
         scratch_tmp = os.path.join(os.path.dirname(root), 'tmpdir')
         os.makedirs(scratch_tmp, exist_ok=True)
@@ -1150,6 +1162,60 @@ def run_three_writers(ctx, version, label):
              sample={'format': 'v%d' % version, 'kind': 'three writers, lock handed over'})
 
 
+def run_stale_temp_bundle(ctx, version, label):
+    """Three bundles with garbage.  A first defragmentation (thresholds 0/0) is interrupted when it is about to swap
+    the third bundle: the filled temp bundle stays behind.  The second bundle gets garbage again.  The next run uses
+    min_bytes=1: the bundle that comes first is clean and is SKIPPED, the second is rewritten, the third too.
+    No address may change - in particular the second bundle must not inherit the tiles of the stale temp bundle."""
+    d = ctx.tmpdir('c19s')
+    cache_dir = os.path.join(d, 'cache')
+    real = Real(version, cache_dir)
+    keys = [(0, 0, 0), (1, 0, 0), (2, 128, 0)]
+    slots = {keys[0]: (1, 1), keys[1]: (2, 2), keys[2]: (3, 3)}
+    expect = {}
+    for k in keys:
+        z, c, r = k
+        a = (c + slots[k][0], r + slots[k][1], z)
+        real.store([(a, [9] * 50)])
+        data = bytes([10 + z]) * (20 + z)
+        real.store([(a, list(data))])
+        expect[a] = data
+    order = [key for key in (tuple([int(os.path.basename(os.path.dirname(f))[1:]),
+                                    int(os.path.basename(f)[:-7][1:].split('C')[1], 16),
+                                    int(os.path.basename(f)[:-7][1:].split('C')[0], 16)])
+                             for f in glob.glob(os.path.join(cache_dir, 'L??', 'R????C????.bundle')))]
+    addrs = sorted((c + x, r + y, z) for (z, c, r) in keys for x, y in slots.values())
+    replay = {'format': 'v%d' % version, 'label': label, 'bundles_in_directory_order': [list(k) for k in order]}
+
+    def check(when):
+        for a in addrs:
+            got = real.load(a)
+            want = expect.get(a)
+            if got != (('data', want) if want else ('missing',)):
+                ctx.fail('v%d,stale-temp-bundle' % version,
+                         '%s: load_tile%r returns %s, expected %s' % (when, a, short(got), 'nothing' if not want else '%d bytes' % len(want)),
+                         dict(replay, when=when, address=list(a), got=short(got)))
+        check_files(ctx, real, replay, when, strict=False)
+    res = real.defrag(0.0, 0, interrupt_at_swap=3)
+    replay['first_run'] = 'defrag_compact_cache(0, 0) interrupted before the swap of the third bundle: %s' % res[0]
+    check('after the interrupted defragmentation')
+    z, c, r = order[1]
+    a = (c + slots[order[1]][0], r + slots[order[1]][1], z)
+    data = bytes([77]) * 33
+    real.store([(a, list(data))])
+    expect[a] = data
+    replay['then'] = ['store_tile%r (33 bytes): the second bundle has garbage again' % (a,),
+                      'defrag_compact_cache(min_percent=0, min_bytes=1): first bundle skipped, the others rewritten']
+    res2 = real.defrag(0.0, 1)
+    if res2[0] != 'ok':
+        ctx.fail('v%d,stale-temp-bundle' % version, 'the second defragmentation raised %s' % res2[1], replay)
+    else:
+        replay['decisions'] = {repr(k): v for k, v in res2[1].items()}
+    check('after the second defragmentation (first bundle skipped)')
+    ctx.count('stale-temp-bundle,v%d=%s' % (version, res[0]))
+    ctx.case(('stale-temp', version), nontrivial=True, sample={'format': 'v%d' % version, 'kind': 'interrupted defrag, then a run that skips the first bundle'})
+
+
 def run_big_tile(ctx, version, label):
     """A tile of 2^24 + 5 bytes: more than the 24 size bits of a v2 index entry can hold (v1: 32 bits, fine).
     The store either refuses (an exception; nothing may change for any address) or stores the tile completely; then
@@ -1538,7 +1604,7 @@ def run(ctx):
     for i, (ops, th) in enumerate(fixed_cases()):
         for version in (1, 2):
             add(version, ops, th, 'fixed-%d' % i, [(12, 99), (99, 12)])
-    nrand = ctx.n(10, 150)
+    nrand = ctx.n(6, 150)
     for i in range(nrand):
         for version in (1, 2):
             nops = ctx.rng.choice([2, 4, 6, 10, 14, 20] if ctx.quick else [2, 4, 6, 10, 14, 20, 30, 45])
@@ -1554,7 +1620,7 @@ def run(ctx):
             add(version, gen_sparse_history(ctx), None, 'sparse-random-%d' % i)
 
     # write errors at every raw write of a store and of a defragmentation; two writers creating one bundle
-    for i in range(ctx.n(2, 12)):
+    for i in range(ctx.n(1, 12)):
         for version in (1, 2):
             try:
                 run_fault_case(ctx, version, gen_fault_history(ctx), 'fault-%d' % i)
@@ -1568,7 +1634,8 @@ def run(ctx):
         except Exception as ex:   # noqa
             ctx.problem('harness', 'fault case new-bundle (v%d) could not be run: %r' % (version, ex), None)
     for version in (2, 1):
-        for fn, name in ((run_three_writers, 'lock-handover'), (run_big_tile, 'big-tile')):
+        for fn, name in ((run_three_writers, 'lock-handover'), (run_big_tile, 'big-tile'),
+                         (run_stale_temp_bundle, 'stale-temp-bundle')):
             try:
                 fn(ctx, version, name)
             except Exception as ex:   # noqa
